@@ -278,6 +278,41 @@ def kernel_probes(ctx, rng):
         finally:
             w.close()
     os.environ.pop('CVXOPT_GUARD_UNDER', None)
+    evals += index_probes(ctx, rng, gb)
+    return evals
+
+def index_probes(ctx, rng, gb):
+    """indexing and indexed assignment of dense and sparse matrices in the guard-page build: any index object (integers, slices, lists and
+    integer matrices with in- and out-of-range entries) and right-hand sides of any shape, including k x 0 and 0 x k matrices: the call
+    either raises or completes; a fault is an access outside the buffers"""
+    n = 300 if ctx.quick() else 8000
+    evals = 0; cid = 2 * 10**6
+    w = Worker(gb)
+    def idx(dim):
+        r = rng.random()
+        if r < 0.25: return rng.randint(-dim - 1, dim)
+        if r < 0.5: return ['s', rng.choice([None, 0, 1, -1]), rng.choice([None, dim, dim + 2, -1]), rng.choice([None, 1, 2, -1])]
+        vals = [rng.randint(-dim - 1, dim) if rng.random() < 0.1 else (rng.randint(-dim, dim - 1) if dim else 0) for _ in range(rng.randint(0, 4))]
+        return [rng.choice(['l', 'm']), vals]
+    try:
+        for it in range(n):
+            kindA = rng.choice(['dense', 'dense', 'sparse']); tcA = rng.choice('dz' if kindA == 'sparse' else 'idz')
+            m, nn = rng.randint(0, 4), rng.randint(0, 4)
+            two = rng.random() < 0.5
+            case = {'kind': 'index', 'id': cid, 'A': [kindA, tcA, m, nn], 'I': idx(m if two else m * nn), 'J': idx(nn) if two else None,
+                    'op': rng.choice(['get', 'set', 'set'])}
+            cid += 1
+            if case['op'] == 'set':
+                k = rng.randint(0, 4)
+                shape = rng.choice([(k, 1), (k, 0), (0, k), (1, k), (rng.randint(0, 3), rng.randint(0, 3)), (1, 1)])
+                case['V'] = [rng.choice(['dense', 'dense', 'sparse', 'num']), rng.choice('idz'), shape[0], shape[1]]
+            res = w.run(case); evals += 1
+            if res.startswith('crash') or res == 'worker-died':
+                ctx.violation('c19:indexing-out-of-bounds:%s:%s' % (kindA, case['op']), '%s %s with index %r%s%s touches memory outside the buffers (%s)' % (
+                    kindA, 'indexed assignment' if case['op'] == 'set' else 'indexing', case['I'], '' if case['J'] is None else ', %r' % (case['J'],),
+                    '' if case['op'] == 'get' else ' and right-hand side %r' % (case['V'],), res), case)
+    finally:
+        w.close()
     return evals
 
 def search(ctx, why): return
